@@ -198,7 +198,8 @@ def expected_outcome(c, rs, ps, clk, end):
     if k == "initbad":
         return "refused"
     if k in ("start", "step", "runupto", "runuptoincl"):
-        if running or rs == "NOT_INITIALIZED" or ps not in ("INITIALIZED", "STARTED") or clk >= end:
+        # refused only when the clock is BEYOND the end: a run paused exactly at the end can be resumed
+        if running or rs == "NOT_INITIALIZED" or ps not in ("INITIALIZED", "STARTED") or clk > end:
             return "refused"
         if k in ("runupto", "runuptoincl") and (c[1] == "nan" or c[1] < clk):
             return "refused"
